@@ -88,6 +88,24 @@ impl<const V: u32> Drv<V> {
     }
 
     fn gc(&mut self, m: usize, exhaustive: bool) {
+        if std::env::var("SCHED_DEBUG").is_ok() {
+            let t: Vec<(usize, usize)> = with_world(|w| w.weak_table.clone());
+            let roots: Vec<usize> = with_world(|w| w.mutators.iter().flat_map(|x| x.roots.iter().copied().collect::<Vec<_>>()).filter(|x| *x != 0).collect());
+            eprintln!("GC: table={:x?} roots={:x?}", t, roots);
+            let w = walker::walk(&roots);
+            for (k, v) in t.iter() {
+                if *k != 0 {
+                    eprintln!("   key {:x} reachable={} value {:x} reachable={}", k, w.index.contains_key(k), v, w.index.contains_key(v));
+                    if w.index.contains_key(k) && !roots.contains(k) {
+                        for n in w.nodes.iter() {
+                            if n.fields.contains(k) {
+                                eprintln!("      referrer {:x} id {} size {} nf {} rooted={}", n.r, n.id, n.size, n.fields.len(), roots.contains(&n.r));
+                            }
+                        }
+                    }
+                }
+            }
+        }
         ev(Obj::new("GCRequest").int("m", m as i64).bool("exhaustive", exhaustive));
         mmtk::<V>().handle_user_collection_request(mutator_tls(m), true, exhaustive);
         ev(Obj::new("GCReturn").int("m", m as i64));
